@@ -75,6 +75,9 @@ func genStorePlan(class string) func(r *prng) *plan {
 			switch {
 			case class == "par" && r.chance(25):
 				n := 2 + r.intn(5)
+				if r.chance(8) {
+					n = 20 + r.intn(81) // as many at once as the validation pool has workers (100)
+				}
 				p.Ops = append(p.Ops, opSpec{K: "par", N: []int64{int64(n)}})
 				for j := 0; j < n; j++ {
 					if r.chance(25) {
